@@ -190,7 +190,7 @@ func (RequestsScenario) GenCase(r *rand.Rand, prop string) interface{} {
 				method = "star"
 			}
 		case "auth":
-			method = pick(r, append([]string{"login", "unknown"}, p.Auths...)...)
+			method = pick(r, append([]string{"login", "unknown", "new"}, p.Auths...)...)
 			if method == "*" {
 				method = "star"
 			}
